@@ -341,7 +341,7 @@ func init() {
 			if r.Tier == "thorough" {
 				doms = append(doms,
 					dom{5, locdom.Opts{MaxParts: 5, NoAmb: true}},
-					dom{4, locdom.Opts{MaxParts: 2, Sites: true, Overlap: true, InnerFlags: true, Nest: true}},
+					dom{4, locdom.Opts{MaxParts: 2, Sites: true, InnerFlags: true, Nest: true}},
 					dom{5, locdom.Opts{MaxParts: 3, Sites: true, Nest: true}},
 					dom{6, locdom.Opts{MaxParts: 2, Sites: true}},
 					dom{6, locdom.Opts{MaxParts: 3, NoAmb: true}},
